@@ -32,6 +32,10 @@ Round 6:
   T_C16_closest_param_point   the parameter returned by LinearInterpolatedCurve.get_closest_param addresses the projection point:
                            get_point(get_closest_param(q)) beats every point of every segment
   T_C16_tie_params / _samples / _discrete        the model agrees with the guards, counts, operators regenerated from the source text
+Round 6c (ℝ):
+  T_C16_circle_resampling_real   arc·(1 − h²/24) ≤ chord sum ≤ arc for parameters ascending in steps ≤ h ≤ 2
+  T_C16_circle_additive_real     lengths of independent discretisations are additive up to r(c − a)h²/24
+  T_C16_linspace_steps / T_C16_circle_get_length_real   the model's linspace ascends in steps (b − a)/N: the bound for get_length, every count
 Spline interpolation and scipy.optimize.minimize are oracles: validator checks only (see notes/C16.md).
 -/
 import CBV.Lemmas.C16
@@ -580,6 +584,90 @@ theorem T_C16_circle_point (O rim n : V) (ct st : Rat) (hn : Vec.nsq n = 1) (hcs
 example : Vec.nsq (⟨0, 0, 1⟩ : V) = 1 ∧ ((3 / 5 : Rat) * (3 / 5) + (4 / 5) * (4 / 5) = 1) ∧
     circlePoint ⟨1, 1, 0⟩ ⟨6, 1, 2⟩ ⟨0, 0, 1⟩ (3 / 5) (4 / 5) = ⟨4, 5, 2⟩ := by
   refine ⟨by decide +kernel, by norm_num, by decide +kernel⟩
+
+/-! ### round 6c: the re-sampling error of `AnalyticCurve.get_length` on circles, additivity up to it -/
+
+open CBV.C08 (Frame circAt) in
+/-- **Two-sided bound for the polyline of a `CircleCurve`**, over ℝ: for parameters ascending in steps of at most `h ≤ 2`
+    (any count, any spacing) `arc·(1 − h²/24) ≤ chord sum ≤ arc`, `arc = r·(last − first)`. -/
+theorem T_C16_circle_resampling_real {C e1 e2 : Vec ℝ} (hF : Frame e1 e2) {r : ℝ} (hr : 0 ≤ r) {h : ℝ} (hh : h ≤ 2)
+    (ts : List ℝ) (first last : ℝ) (hf : ts.head? = some first) (hl : ts.getLast? = some last) (hs : Steps h ts) :
+    r * (last - first) * (1 - h * h / 24) ≤ polyLenR distR (ts.map (circAt C e1 e2 r)) ∧
+    polyLenR distR (ts.map (circAt C e1 e2 r)) ≤ r * (last - first) := by
+  refine ⟨circle_polyline_ge hF hr hh ts last hl hs first hf, ?_⟩
+  have h1 := circle_polyline_le (C := C) hF hr ts
+  rw [variation_steps ts last hl hs first hf] at h1
+  exact h1
+
+open CBV.C08 (Frame circAt) in
+/-- **Additivity of `get_length` on a circle between arbitrary parameters, up to the re-sampling error**: the polylines of three
+    independent discretisations of `[a, b]`, `[b, c]` and `[a, c]` (each ascending in steps of at most `h ≤ 2`, whatever their counts)
+    satisfy `|L(a,c) − (L(a,b) + L(b,c))| ≤ r·(c − a)·h²/24`.  (100 samples of a range of at most 2π: `h ≤ 0.0635`, relative 1.7e-4 — the
+    oracle's tolerance for analytic curves is 2e-3.) -/
+theorem T_C16_circle_additive_real {C e1 e2 : Vec ℝ} (hF : Frame e1 e2) {r : ℝ} (hr : 0 ≤ r) {h : ℝ} (hh : h ≤ 2)
+    (a b c : ℝ) (l1 l2 l3 : List ℝ)
+    (h1 : l1.head? = some a ∧ l1.getLast? = some b ∧ Steps h l1)
+    (h2 : l2.head? = some b ∧ l2.getLast? = some c ∧ Steps h l2)
+    (h3 : l3.head? = some a ∧ l3.getLast? = some c ∧ Steps h l3) :
+    |polyLenR distR (l3.map (circAt C e1 e2 r))
+        - (polyLenR distR (l1.map (circAt C e1 e2 r)) + polyLenR distR (l2.map (circAt C e1 e2 r)))|
+      ≤ r * (c - a) * (h * h / 24) := by
+  obtain ⟨lo1, hi1⟩ := T_C16_circle_resampling_real (C := C) hF hr hh l1 a b h1.1 h1.2.1 h1.2.2
+  obtain ⟨lo2, hi2⟩ := T_C16_circle_resampling_real (C := C) hF hr hh l2 b c h2.1 h2.2.1 h2.2.2
+  obtain ⟨lo3, hi3⟩ := T_C16_circle_resampling_real (C := C) hF hr hh l3 a c h3.1 h3.2.1 h3.2.2
+  rw [abs_le]
+  constructor <;> nlinarith
+
+open CBV.C08 (Frame circAt) in
+/-- non-vacuity: three ascending parameter lists in steps of at most 1/2 -/
+example : Steps (1 / 2) [0, 1 / 2, 1] ∧ Steps (1 / 2) [1, 5 / 4, 3 / 2] ∧ Steps (1 / 2) [0, 3 / 8, 3 / 4, 9 / 8, 3 / 2] := by
+  refine ⟨?_, ?_, ?_⟩ <;> simp only [Steps] <;> norm_num
+
+open CBV.C08 (Frame circAt) in
+/-- the model's `np.linspace(a, b, N + 1)` (read in ℝ) ascends in steps of `(b − a)/N`: the bound applies to the polyline of
+    `AnalyticCurve.get_length` for every sample count -/
+theorem T_C16_linspace_steps (a b : Rat) (hab : a ≤ b) (N : Nat) (hN : 1 ≤ N) :
+    Steps (((b : ℝ) - a) / N) ((linspace a b (N + 1)).map (fun t : Rat => (t : ℝ))) := by
+  obtain ⟨n, rfl⟩ : ∃ n, N = n + 1 := ⟨N - 1, by omega⟩
+  have hNpos : (0 : ℝ) < ((n + 1 : Nat) : ℝ) := by positivity
+  obtain ⟨s, hs⟩ : ∃ s : ℝ, s = ((b : ℝ) - a) / ((n + 1 : Nat) : ℝ) := ⟨_, rfl⟩
+  have hs0 : 0 ≤ s := by
+    rw [hs]; exact div_nonneg (by exact_mod_cast sub_nonneg.mpr hab) (le_of_lt hNpos)
+  have hsN : s * ((n : ℝ) + 1) = (b : ℝ) - a := by
+    rw [hs]; push_cast; field_simp
+  have e : (linspace a b (n + 1 + 1)).map (fun t : Rat => (t : ℝ))
+      = (List.range' 0 (n + 1)).map (fun i : Nat => (a : ℝ) + (i : ℝ) * s) ++ [(b : ℝ)] := by
+    rw [linspace_eq, List.map_append, List.map_map, List.range_eq_range', hs]
+    congr 1
+    apply List.map_congr_left
+    intro i _
+    simp only [Function.comp, sample]
+    push_cast
+    ring
+  rw [e, ← hs]
+  apply steps_range' _ _ _ n 0
+  · simp only [Nat.zero_add]; nlinarith
+  · simp only [Nat.zero_add]; nlinarith
+  · intro i
+    push_cast
+    constructor <;> nlinarith
+
+open CBV.C08 (Frame circAt) in
+/-- … so the polyline that `AnalyticCurve.get_length` sums for a `CircleCurve` — the model's `linspace` with `N + 1` samples, read in ℝ —
+    lies between `arc·(1 − ((b − a)/N)²/24)` and `arc = r·(b − a)`, for every sample count with `(b − a)/N ≤ 2`; with the
+    100 samples of the source (`N = 99`) and a range of at most 2π the relative deficit is below `(2π/99)²/24 < 1.7e-4`. -/
+theorem T_C16_circle_get_length_real {C e1 e2 : Vec ℝ} (hF : Frame e1 e2) {r : ℝ} (hr : 0 ≤ r) (a b : Rat) (hab : a ≤ b)
+    (N : Nat) (hN : 1 ≤ N) (hstep : ((b : ℝ) - a) / N ≤ 2) :
+    r * ((b : ℝ) - a) * (1 - (((b : ℝ) - a) / N) * (((b : ℝ) - a) / N) / 24)
+      ≤ polyLenR distR (((linspace a b (N + 1)).map (fun t : Rat => (t : ℝ))).map (circAt C e1 e2 r)) ∧
+    polyLenR distR (((linspace a b (N + 1)).map (fun t : Rat => (t : ℝ))).map (circAt C e1 e2 r)) ≤ r * ((b : ℝ) - a) := by
+  apply T_C16_circle_resampling_real hF hr hstep _ _ _ _ _ (T_C16_linspace_steps a b hab N hN)
+  · rw [linspace_eq]
+    obtain ⟨n, rfl⟩ : ∃ n, N = n + 1 := ⟨N - 1, by omega⟩
+    simp [List.range_succ_eq_map, sample]
+  · rw [linspace_eq]; simp
+
+example : ((2 : ℝ) * 3.15 / 99) * (2 * 3.15 / 99) / 24 < 1.7e-4 := by norm_num
 
 /-! ### round 6: tie to the source text (tables regenerated by `cbv/tables/c16.py` with `ast` on every run) -/
 
